@@ -486,6 +486,7 @@ def run_session(case: dict) -> dict:
     insts = []
     last_raw = [None]
     hashes: dict = {}
+    parse_ok: dict = {}
     try:
         for d in deliveries:
             insts.append(construct(d, keep=True))  # every instance's files stay on the simulated disk for the whole session
@@ -523,6 +524,7 @@ def run_session(case: dict) -> dict:
             want = tables[rk]["__parse__"]
             if res != want:
                 raise Violation("parse_outcome_differs", {"instance": i, "where": where, "fresh": want, "got": res})
+            parse_ok[i] = res == "ok"
             if res == "ok":
                 meta = case["docs"][case["instances"][i]["doc"]].get("meta", {})
                 dm = meta.get("decay_mothers", meta.get("mothers"))
@@ -549,6 +551,12 @@ def run_session(case: dict) -> dict:
                     abstract.append((op["p"], "strict_reparse", "skipped"))
                     continue
                 i = op["p"]
+                if not parse_ok.get(i):
+                    # the instance holds no successfully parsed tables (its last parse failed): this would not be a *re*-parse, and
+                    # a first parse aborted by some warning-turned-error is allowed to leave anything behind
+                    do_parse(i, bool(op["cc"]), rk["strict_reparse"][1], f"step {step} (strict re-parse skipped: nothing parsed yet)")
+                    abstract.append((i, "strict_reparse", "skipped_not_parsed"))
+                    continue
                 with warnings.catch_warnings():
                     warnings.simplefilter("error")
                     try:
@@ -658,8 +666,9 @@ def run_session(case: dict) -> dict:
                         warnings.simplefilter("ignore")
                         try:
                             insts[i].parse(include_ccdecays=bool(inner["cc"]))
+                            parse_ok[i] = True
                         except Exception:
-                            pass
+                            parse_ok[i] = False
                     hashes[i] = state_hash(insts[i])
                     do_checkpoint(i, rk, f"step {step}: after interrupted parse at {inj.where} and re-parse")
                     abstract.append((i, "interrupt:parse", "fired" if inj.fired else "not_reached"))
